@@ -906,8 +906,10 @@ impl IntersectionInfo {
                 .map(|(tag, ranges)| {
                     let total = ranges
                         .iter()
-                        .map(|range| *range.end() - *range.start())
-                        .fold(Fixed::ZERO, |acc, x| acc + x);
+                        // Fixed subtraction and addition wrap; a segment wider
+                        // than half the Fixed range must not turn negative.
+                        .map(|range| range.end().saturating_sub(*range.start()))
+                        .fold(Fixed::ZERO, |acc, x| acc.saturating_add(x));
 
                     (tag, total)
                 })
